@@ -446,6 +446,9 @@ func globalNames(opts ...risor.Option) []string {
 }
 
 func main() {
+	if len(os.Args) > 1 && os.Args[1] == "rootcfg" {
+		os.Exit(rootcfgRun())
+	}
 	w := bufio.NewWriterSize(os.Stdout, 1<<20)
 	defer w.Flush()
 	sc := bufio.NewScanner(os.Stdin)
